@@ -88,6 +88,13 @@ pub fn gen(prop: &str, seed: u64, index: u64, _tier: Tier) -> Case {
         src_paths.push(path.clone());
         let mut lines: Vec<String> = vec!["begin".into()];
         match variant {
+            "stdout" if rng.chance(1, 12) => {
+                // a background job that outlives the shell still writes to the pipe: the directive
+                // result is everything written to stdout until the pipe is closed
+                let text = format!("early {i}\nlate {i}\n");
+                lines.push(format!("-TXTPP#run echo 'early {i}'; (sleep 0.6; echo 'late {i}') &"));
+                params.insert(format!("stdout_text.{path}"), text);
+            }
             "stdout" if rng.chance(1, 3) => {
                 // a command above the dependency line that prints the dependency's output: what
                 // counts is what it prints when the file is finally built (the dependency is
